@@ -275,8 +275,11 @@ fn run_tool_once(datadir: &Path, dump: &Path, o: &RunOpts) -> Result<RunOut, Str
     };
     cmd.args(&args);
     cmd.stdin(Stdio::null());
-    cmd.stdout(std::fs::File::create(&out_path).map_err(|e| e.to_string())?);
-    cmd.stderr(std::fs::File::create(&err_path).map_err(|e| e.to_string())?);
+    // stdout/stderr go through pipes, not files: RLIMIT_FSIZE (C10) must only bite on the files the
+    // tool itself creates, never on the harness's capture of its log output
+    cmd.stdout(Stdio::piped());
+    cmd.stderr(Stdio::piped());
+    let _ = (&out_path, &err_path);
     cmd.env("HOME", io_dir.display().to_string());
     cmd.env_remove("RUST_LOG");
     cmd.env("RUST_BACKTRACE", "0");
@@ -315,6 +318,18 @@ fn run_tool_once(datadir: &Path, dump: &Path, o: &RunOpts) -> Result<RunOut, Str
         });
     }
     let mut child = cmd.spawn().map_err(|e| format!("spawn {}: {}", bin.display(), e))?;
+    let mut so = child.stdout.take().expect("piped stdout");
+    let mut se = child.stderr.take().expect("piped stderr");
+    let t_out = std::thread::spawn(move || {
+        let mut v = Vec::new();
+        let _ = std::io::Read::read_to_end(&mut so, &mut v);
+        v
+    });
+    let t_err = std::thread::spawn(move || {
+        let mut v = Vec::new();
+        let _ = std::io::Read::read_to_end(&mut se, &mut v);
+        v
+    });
     // plain polling: no SIGCHLD machinery that could miss a wake-up when 16 shards wait at once
     let deadline = std::time::Instant::now() + Duration::from_secs(o.timeout_s);
     let mut nap = Duration::from_micros(500);
@@ -345,8 +360,8 @@ fn run_tool_once(datadir: &Path, dump: &Path, o: &RunOpts) -> Result<RunOut, Str
             (None, None, true)
         }
     };
-    let stdout = std::fs::read(&out_path).unwrap_or_default();
-    let stderr = std::fs::read(&err_path).unwrap_or_default();
+    let stdout = t_out.join().unwrap_or_default();
+    let stderr = t_err.join().unwrap_or_default();
     let files = if o.callback.has_dump() { read_dir_files(dump) } else { BTreeMap::new() };
     let res = RunOut { code, signal, timed_out, stdout, stderr, files };
     if o.inject.is_some() {
